@@ -22,6 +22,8 @@ def _inst(tier):
     out = []
     for o in ("group_by", "group_by_until", "group_by_until_never"):
         for n in range(0, nm + 1):
+            if o == "group_by_until" and n >= 3 and tier == "quick":
+                continue  # expiring groups with three elements need the thorough budget
             if o == "group_by_until" and n >= 3:
                 out += [{"op": o, "N": n, "M": m} for m in (1, 2, 3)]  # split on the number of keys
             else:
@@ -121,7 +123,7 @@ def h_partition(a, inst):
 
 ENCODED = ["reactivex/operators/_groupbyuntil.py", "reactivex/operators/_groupby.py", "reactivex/observable/groupedobservable.py",
            "reactivex/operators/_partition.py"]
-BOUNDS = {"quick": "N<=3 elements with values in [0,3], key x % m (m in 1..3: one to three keys), element mapper 10+x, gaps in [0,3], "
+BOUNDS = {"quick": "N<=3 elements (N<=2 with expiring groups) with values in [0,3], key x % m (m in 1..3: one to three keys), element mapper 10+x, gaps in [0,3], "
                    "terminal none/completed/error; group durations that fire (by emitting or by completing empty) d in 1..3 ticks after "
                    "the group was emitted, or never; partition with predicate x >= p and the indexed form",
           "thorough": "N<=4"}
